@@ -18,3 +18,5 @@ mod c05_shift;
 mod c06_bits;
 #[cfg(kani)]
 mod c07_cmp;
+#[cfg(kani)]
+mod a1_axioms;
